@@ -574,6 +574,57 @@ func genC08(g *G) {
 		}
 		g.Emit("btcwitness", itoa(n), joinOr(arr, ","), itoa(1+g.Intn(1<<20)))
 	}
+	// what keygen / resharing store when the protocol ends: old committee none / same / overlapping / disjoint, the new one 1..6 peers
+	for i := 0; i < g.Count(60, 3000); i++ {
+		store := sub(1+g.Intn(6), pool)
+		kps := "none"
+		switch g.Intn(4) {
+		case 0:
+			kps = j(sub(len(store), store)) // the same committee, another order
+		case 1:
+			kps = j(sub(1+g.Intn(5), pool))
+		case 2:
+			if len(store) > 1 {
+				kps = j(store[:len(store)-1]) // somebody joins
+			}
+		}
+		kind := []string{"ekeygen", "ereshare"}[g.Intn(2)]
+		g.Emit("endstore", kind, kps, g.Pick([]string{"1", "2", "3"}), j(store), g.Pick([]string{"1", "2", "3", "4"}))
+	}
+	// one Signing object run again and again with other subsets (the coordinator's retries): every sequence of up to 3 subsets
+	// out of the 2- and 3-member subsets of the three holders, for each holder, ECDSA; a sample for FROST
+	if hp, err := c08FixturePeers(); err == nil {
+		holders := c08ShowPeers(hp)
+		subsAll := []string{"0,1", "0,2", "1,2", "0,1,2"}
+		if g.Thorough() {
+			subsAll = []string{"0,1", "1,0", "0,2", "2,0", "1,2", "2,1", "0,1,2", "2,1,0"}
+		}
+		probes := "0,1,2|0,1|0,2|1,2|0|1|2"
+		// quick: every ordered PAIR of subsets for every holder (each run starts the real first protocol round, ~0.1 s), a few
+		// triples; thorough: all pairs over the subsets in both orders and 250 random triples
+		emit := func(self int, sq []string) {
+			g.Emit("rerun", "ecdsa", itoa(self), joinOr(sq, "|"), probes, holders)
+		}
+		for self := 0; self < 3; self++ {
+			for _, s1 := range subsAll {
+				for _, s2 := range subsAll {
+					if s1 != s2 {
+						emit(self, []string{s1, s2})
+					}
+				}
+			}
+		}
+		for i := 0; i < g.Count(8, 250); i++ {
+			emit(g.Intn(3), []string{g.Pick(subsAll), g.Pick(subsAll), g.Pick(subsAll)})
+		}
+		for i := 0; i < g.Count(12, 300); i++ {
+			sq := []string{g.Pick(subsAll), g.Pick(subsAll)}
+			if g.Bool() {
+				sq = append(sq, g.Pick(subsAll))
+			}
+			g.Emit("rerun", "frost", itoa(g.Intn(3)), joinOr(sq, "|"), probes, holders)
+		}
+	}
 	genC08Runs(g)
 	_ = strings.Join
 }
